@@ -15,7 +15,7 @@ from .C04 import History
 MODULE = __name__
 
 ANYERR = set(DEFINED_CODES) - {CIF_OK, CIF_FINISHED}
-CONTEXTS = ['plain', 'iter-close', 'iter-abort']
+CONTEXTS = ['plain', 'iter-close', 'iter-abort', 'iter-busy-close']
 POSITIONS = ['first', 'middle', 'last']
 
 # kinds: (name, list-length-matters)
@@ -450,6 +450,26 @@ def run_sys_case(ctx, idx, case):
             if rc != CIF_OK:
                 raise Mismatch('fixture:get_packets:%d' % rc, 'cannot open the enclosing iterator: %d' % rc)
             L.it_next(it, 'null')
+            if ctxname == 'iter-busy-close':
+                # the iterator's transaction already holds work when the failing call comes: successful read-only
+                # calls (each runs in a nested transaction of its own inside this one) and an update made through the
+                # iterator.  The failing call may undo nothing but itself: the update is there after close.
+                rcn, _names = L.loop_get_names(lh)
+                rcl, lhs = L.get_all_loops(h.bh)
+                for x in lhs or ():
+                    L.loop_free(x)
+                iterated = h.lb if _names[:1] == ['_b1'] else h.la
+                target = iterated.names[1][0]
+                pv = ('char', 'made before the failing call %d' % idx, True)
+                rcp, upk = L.packet_create([target])
+                v = h.mk(pv)
+                L.packet_set(upk, target, v)
+                L.value_free(v)
+                rcu = L.it_update(it, upk)
+                L.packet_free(upk)
+                if rcn != CIF_OK or rcl != CIF_OK or rcu != CIF_OK:
+                    raise Mismatch('fixture:busy-iterator:%d/%d/%d' % (rcn, rcl, rcu), 'work inside the enclosing iterator: get_names %d, get_all_loops %d, update %d' % (rcn, rcl, rcu))
+                iterated.packets[0][iterated.names[1][1]] = pv
         label, rc, rcs = h.failing_call(kind, n, pos, it is not None)
         if rc is None:
             ctx.count('cases_whose_call_no_longer_fails')
@@ -471,7 +491,7 @@ def run_sys_case(ctx, idx, case):
             if t != 1:
                 raise Mismatch('autocommit:%s:enclosing-transaction-lost' % label,
                                'the failing %s ended the enclosing iterator\'s transaction' % label)
-            rc2 = L.it_close(it) if ctxname == 'iter-close' else L.it_abort(it)
+            rc2 = L.it_abort(it) if ctxname == 'iter-abort' else L.it_close(it)
             L.loop_free(lh)
             if rc2 != CIF_OK:
                 raise Mismatch('model:cif_pktitr_%s:0:%d:after-%s' % (ctxname[5:], rc2, kind), 'closing the enclosing iterator -> %d' % rc2)
